@@ -199,3 +199,9 @@ CASES.append(wrapper_case())
 CASES.append(Case("isolation/two-engines-real-library", isolation_case, functions=["LibRDEngine (two objects)",
                   "engineexport_* globals"], sym=False, bounded="one concrete two-engine scenario on the real library"))
 EXTRA = [battery_step]
+
+
+# completion depends on the end time and the step reaching the engine in the same units: C04's marshalling cases
+from props import C04 as _C04
+for _sp in ("grid", "graph"):
+    CASES.append(_C04.marshal_case(_sp, False))
